@@ -123,7 +123,9 @@ static std::string extern_case(const J &c) {
         delete_TGswSample(back); delete_TGswSampleFFT(gf);
     } else {
         TLweSample *res = tout;
-        if (fn == 0) tGswExternProduct(tout, g, tin, X.Pg);
+        const bool inplace = fn == 0 && c["inplace"].i() != 0; // the TLWE sample c is also the output object (accumulator updated in place, as tGswExternMulToTLwe does by construction)
+        if (inplace) { tGswExternProduct(tin, g, tin, X.Pg); res = tin; }
+        else if (fn == 0) tGswExternProduct(tout, g, tin, X.Pg);
         else if (fn == 1) { tGswExternMulToTLwe(tin, g, X.Pg); res = tin; }
         else { TGswSampleFFT *gf = new_TGswSampleFFT(X.Pg); tGswToFFTConvert(gf, g, X.Pg); tGswFFTExternMulToTLwe(tin, gf, X.Pg); res = tin; delete_TGswSampleFFT(gf); }
         // oracle A: exact sum_p dec_p (*) row_p, coefficient-wise, key-independent
@@ -153,7 +155,7 @@ static std::string extern_case(const J &c) {
             int w = 0; int64_t d = maxabs(ph, want, &w);
             if (d > S1 * T) { snprintf(buf, sizeof buf, "%s k=%d (l,Bgbit)=(%d,%d) message kind %d: phase coefficient %d differs from m*phase(c) minus the truncation term by %lld units (allowed %lld)", FN[fn], k, l, Bgbit, (int)c["mkind"].i(), w, (long long)d, (long long)(S1 * T)); why = buf; }
         }
-        if (why.empty() && fn == 0) for (int i = 0; i <= k; i++) if (memcmp(tin->a[i].coefsT, cin[i].data(), N * 4)) why = "tGswExternProduct left its TLWE input modified";
+        if (why.empty() && fn == 0 && !inplace) for (int i = 0; i <= k; i++) if (memcmp(tin->a[i].coefsT, cin[i].data(), N * 4)) why = "tGswExternProduct left its TLWE input modified";
         for (int p = 0; p < kpl && why.empty(); p++) for (int i = 0; i <= k; i++) if (memcmp(g->all_sample[p].a[i].coefsT, rows[p][i].data(), N * 4)) why = "external product modified the TGSW sample";
     }
     delete_TLweSample(tin); delete_TLweSample(tout); delete_TGswSample(g);
@@ -221,7 +223,7 @@ int main(int argc, char **argv) {
         if (c["f"].i() >= 4) return c["barakind"].i() >= 2;
         return c["mkind"].i() >= 2 || c["ckind"].i() != 0;
     };
-    H.classify = [](const J &c) { return std::string(FN[c["f"].i()]) + (c["f"].i() < 4 ? (c["rowkind"].i() ? "_noisy" : "_exact") : "") + ((c["f"].i() < 4 ? c["kk"].i() : c["cfg"]["k"].i()) == 2 ? "_k2" : ""); };
+    H.classify = [](const J &c) { return std::string(FN[c["f"].i()]) + (c["inplace"].i() ? "_inplace" : "") + (c["f"].i() < 4 ? (c["rowkind"].i() ? "_noisy" : "_exact") : "") + ((c["f"].i() < 4 ? c["kk"].i() : c["cfg"]["k"].i()) == 2 ? "_k2" : ""); };
     if (H.mode == "replay") return H.replay(A.s("replay"));
     const uint64_t seed = A.u("seed", 1);
     const int nrot = (int)A.i("nrot", 40);
@@ -233,6 +235,7 @@ int main(int argc, char **argv) {
         int Bgbit = *rc::gen::weightedOneOf<int>({{6, rng<int>(1, 10)}, {1, rng<int>(11, 16)}});
         int l = *rc::gen::weightedOneOf<int>({{3, rng<int>(1, std::min(32 / Bgbit, 8))}, {1, rc::gen::just(std::min(32 / Bgbit, 8))}});
         c.set("f", fn).set("fn", FN[fn]);
+        if (fn == 0) c.set("inplace", *rc::gen::weightedElement<int>({{3, 0}, {1, 1}}));
         if (fn < 4) {
             c.set("kk", k).set("l", l).set("Bgbit", Bgbit).set("keyseed", seed + (uint64_t)*rng<int>(0, 3));
             c.set("mkind", *rc::gen::weightedElement<int>({{1, 0}, {2, 1}, {2, 2}, {3, 3}, {3, 4}})).set("mparam", *genSeed());
